@@ -290,6 +290,7 @@ void build(Ctx& ctx)
 	}
 	gCases.push_back({ 0, 3, 1 }); gCases.push_back({ 1, 3, 1 }); gCases.push_back({ 2, 3, 1 }); gCases.push_back({ 5, 0, 1 });
 	gCases.push_back({ 6, uint64_t(ctx.thorough ? 5 : 4), 1 });
+	gCases.push_back({ 7, 3, 1 });
 }
 
 void runCase(std::size_t i, Ctx& ctx)
@@ -318,6 +319,7 @@ void runCase(std::size_t i, Ctx& ctx)
 		orderingLaws(ctx, S, 1, "8 boundary bytes incl. >= 0x80, length <= 2");
 		ctx.trace(); break;
 	}
+	case 7: { auto S = allStrings("aC:\\ ./-", int(c.a)); pathLaws(ctx, S, "len<=" + std::to_string(c.a) + " over {a,C,:,\\,space,.,/,-}"); ctx.trace(); break; }   // names that would be special elsewhere (a drive letter, a backslash) are plain names here
 	case 6: sortAndDuplicates(ctx, int(c.a)); ctx.sample("every list of up to " + std::to_string(c.a) + " names over a 10-name pool: sorted with the library comparator, duplicate check must refuse exactly the lists with two names equal ignoring case"); break;
 	case 10: powerOfTwo(ctx, c.a, c.b); ctx.trace(); if (c.a == 0) ctx.sample("IsPowerOf2(v) == (popcount(v) == 1) for every v in [0, 2^26) ... 64 such blocks cover all 2^32 values"); break;
 	default:
